@@ -40,6 +40,7 @@ func Yield()
 func WaitAll()
 func ExpectPanic()
 func Note(s string)
+func Split() // no-op; a branch arm containing it is forked by the engine instead of being folded into an ite
 func IsComparable(v any) bool
 func AsAssign(err error, target any) bool
 func GhostGet(obj any, key string) int
